@@ -36,6 +36,7 @@ def parseCalls (msg : Bytes) : List String → Option (List Call)
 
 def handle1 (line : String) : String :=
   let o := parseOp line
+  if o.cmd == "api" then s!"TagSize={tagSize} Size={tagSize}" else
   match o.hex? "key", o.hex? "msg" with
   | some key, some msg =>
     if key.length != 32 then "bad-op" else
@@ -55,6 +56,15 @@ def handle1 (line : String) : String :=
         | none => "panic"
         | some b => if b then "v1" else "v0"
       | none => "bad-op"
+    else if o.cmd == "histc" then   -- like hist, but the caller recovers from each panic and continues
+      match o.get? "ops" with
+      | none => "bad-op"
+      | some ops =>
+        match parseCalls msg (if ops == "-" then [] else ops.splitOn ",") with
+        | none => "bad-op"
+        | some calls =>
+          let outs := (new key).runAll calls
+          if outs.isEmpty then "-" else "|".intercalate (outs.map showOut)
     else if o.cmd == "hist" then
       match o.get? "ops" with
       | none => "bad-op"
